@@ -7,6 +7,8 @@
 //	glbfacts <repo> launch
 //	    the order of the launcher's actions in daemon/daemon.go func launch
 //	    (list of Glb.Model.Daemon.action)
+//	glbfacts <repo> tables
+//	    the constant tables and literals the Coq models assume (tables.go), as Coq definitions
 //
 // Only go/ast, go/parser, go/token: no type information. Whatever cannot be classified is
 // reported in the conservative direction (an unguarded plain write / an AUnknown action), so
@@ -21,6 +23,7 @@ import (
 func usage() {
 	fmt.Fprintln(os.Stderr, "usage: glbfacts <repo> locks <relative/file.go> <TypeName> <mutexField or ->")
 	fmt.Fprintln(os.Stderr, "       glbfacts <repo> launch")
+	fmt.Fprintln(os.Stderr, "       glbfacts <repo> tables")
 	os.Exit(2)
 }
 
@@ -41,6 +44,11 @@ func main() {
 			usage()
 		}
 		err = cmdLaunch(repo)
+	case "tables":
+		if len(os.Args) != 3 {
+			usage()
+		}
+		err = cmdTables(repo)
 	default:
 		usage()
 	}
